@@ -357,9 +357,12 @@ def example_shard(shard, rec, rng, tmp):
                         break
                     lib, comp = library_lines("binary", "pretty", "Command", data, None)
                 elif tn == "Response":
-                    ref = R.decode("Response", data, cc=item, enc=None, strict=False)
-                    enc = True if ref.outcome.kind == "enc_mismatch" else None
-                    lib, comp = library_lines_enc(data, item, enc)
+                    # the flag is derived from the response's own sessions: try without and with it
+                    lib, comp = library_lines_enc(data, item, None)
+                    if comp is not True or [norm(l) for l in lib if not norm(l).startswith("Warning:")] != shown:
+                        lib2, comp2 = library_lines_enc(data, item, True)
+                        if comp2 is True:
+                            lib, comp = lib2, comp2
                 else:
                     rec.violation("example-filter", "wrong-kind", f"example {name} printed a {tn}", rp)
                     break
@@ -368,7 +371,8 @@ def example_shard(shard, rec, rng, tmp):
                     rec.violation("example-filter", "wrong-type", f"example {name} printed a {tn}", rp)
                     break
                 lib, comp = library_lines("binary", "pretty", tn, data, None)
-            want = [norm(l) for l in lib]
+            # the examples are printed from objects, which carry no warnings: compare the field rows
+            want = [norm(l) for l in lib if not norm(l).startswith("Warning:")]
             if comp is not True or shown != want:
                 i = next((i for i, (a, c) in enumerate(zip(shown, want)) if a != c), min(len(shown), len(want)))
                 rec.violation("example-redecode", f"{tn if tn in ('Command', 'Response') else 'type'}", f"example {name}: the printed {tn} {hexs[:80]} does not re-decode to what is shown (library: {comp}); line #{i}: shown {shown[i] if i < len(shown) else None!r} re-decoded {want[i] if i < len(want) else None!r}", rp)
